@@ -19,13 +19,195 @@ FILE = "src/zorg/app/runners/_run_action.py"
 PROTOCOL = ("EDIT ", "SEARCH ", "PROMPT ", "ECHO ")
 
 
+def _open_run(model: PyModel, page: str, lines: list, line_number: int, option):
+    """One abstract run of run_action_open over a virtual notes directory /Z (page -> lines); the index answers for a fixed set of IDs / RIDs / ZIDs.
+    -> [(status, [what the editor plugin receives: printed lines and external actions, in order], imprecise notes, raised?)]"""
+    import datetime as _dt
+
+    from ..absint import Interp, Raised, State
+    from ..absval import HObj, Opaque, Ref
+    from ..virtual import World, vpath
+
+    W = World(model, files={}, old_map=None, indexed=set(), errors=set(), whitelist=[], contents={f"/Z/{page}": "\n".join(lines), "/Z/q.zo": "", "/Z/r.zo": "", "/Z/doc.pdf": ""}, missing="all-but-contents")
+    probes = W.probes()
+    base_m, base_g, base_c = probes["method:*"], probes["getattr:*"], probes["call:*"]
+    st = State()
+
+    def note(s, zid, fp, links=()):
+        return s.alloc(HObj("obj", cls="zorg.domain.models._page.Note", fields=dict(body=f"{zid} text", zid=zid, file_path=vpath(fp), line_no=3, links=s.alloc(HObj("list", items=list(links))),
+                                                                                     todo_payload=None, properties=s.alloc(HObj("dict")))))
+
+    by_id = {("ID", "gid"): [("240101#G1", "pg/g.zo")], ("RID", "rid"): [("240101#R1", "pg/r.zo")], ("ID", "url"): [("240101#U1", "pg/u.zo", ("x:http://u/%s",))],
+             ("ID", "twice"): [("240101#T1", "pg/t.zo"), ("240101#T2", "pg/t.zo")], ("ID", "split"): [("240101#S1", "pg/s1.zo"), ("240101#S2", "pg/s2.zo")]}
+    by_zid = {"240101#B2": "pg/z.zo", "240101#C3x": "pg/c.zo", "240101#A1": "pg/a.zo"}
+
+    def out(s, x):
+        s.trace.append(("out", x))
+
+    def get_by_id(I, args, kwargs, s, node):
+        key = (kwargs.get("id_key", "ID"), args[2] if len(args) > 2 else kwargs.get("id_"))
+        return [(s.alloc(HObj("list", items=[note(s, *t) for t in by_id.get(key, [])])), s)]
+
+    def get_by_zid(I, args, kwargs, s, node):
+        z = args[2] if len(args) > 2 else kwargs.get("zid")
+        return [(note(s, z, by_zid[z]) if z in by_zid else None, s)]
+
+    def refresh(I, args, kwargs, s, node):
+        out(s, "REFRESH " + str(getattr(args[2], "tag", args[2]) if len(args) > 2 else "?"))
+        return [(None, s)]
+
+    def init_tmpl(I, args, kwargs, s, node):
+        out(s, "INIT " + str(getattr(args[2], "tag", args[2]) if len(args) > 2 else "?"))
+        return [(None, s)]
+
+    def printed(I, args, kwargs, s, node):
+        txt = " ".join(a if isinstance(a, str) else (a.tag if isinstance(a, Opaque) and a.cls == "vpath" else f"<{type(a).__name__}>") for a in args)
+        if not all(isinstance(a, str) or (isinstance(a, Opaque) and a.cls == "vpath") for a in args):
+            s.note("print of an abstract value")
+        out(s, txt)
+
+    def snap(s, v):
+        if isinstance(v, Ref):
+            h = s.obj(v)
+            return [snap(s, x) for x in h.items] if h.kind in ("list", "set") else "<obj>"
+        return v.tag if isinstance(v, Opaque) and v.cls == "vpath" else v
+
+    def meth(I, recv, name, args, kwargs, s, node):
+        if recv.cls in ("ext:subprocess", "ext:sp") and name in ("run", "Popen", "call", "check_call"):
+            out(s, f"PROC {snap(s, args[0]) if args else '?'}")
+            return [(Opaque("vproc"), s)]
+        if recv.cls == "vproc" and name == "communicate":
+            return [((Opaque("vbytes"), None), s)]
+        if recv.cls == "vbytes" and name == "decode":
+            return [("/papis/item\n", s)]
+        if recv.cls.startswith("ext:datetime") and name == "strptime" and len(args) == 2 and all(isinstance(a, str) for a in args):
+            try:
+                _dt.datetime.strptime(args[0], args[1])
+            except ValueError:
+                return [(Raised("ValueError", node, "strptime"), s)]
+            return [(Opaque("vday", args[0]), s)]
+        if recv.cls == "vday":
+            return [(recv, s)]
+        return base_m(I, recv, name, args, kwargs, s, node)
+
+    def gattr(I, v, name, s, node):
+        if v.cls == "vproc" and name == "returncode":
+            return [(0, s)]
+        return base_g(I, v, name, s, node)
+
+    mi = model.module_of(F_OPEN.rsplit(".", 1)[0])
+    probes.update({"method:*": meth, "getattr:*": gattr, "print": printed,
+                   "zorg.service.note_utils.get_notes_by_id": get_by_id, "zorg.service.note_utils.get_note_by_zid": get_by_zid,
+                   model.resolve_dotted("zorg.service.swog.refresh_zoq_file") or "zorg.service.swog._refresh_zoq_file.refresh_zoq_file": refresh,
+                   "zorg.service.swog._refresh_zoq_file.refresh_zoq_file": refresh,
+                   model.resolve_dotted(mi.imports.get("init_from_template", "")) or "zorg.service.templates.init_from_template": init_tmpl})
+    I = Interp(model, probes=probes, max_states=3000)
+    cfg = st.alloc(HObj("obj", cls="zorg.app.config.OpenActionConfig", fields=dict(zettel_dir=vpath("/Z"), zo_path=vpath(page), line_number=line_number, option_idx=option, database_url="db", verbose=0,
+                                                                                  template_pattern_map=st.alloc(HObj("dict")), binary_exts=st.alloc(HObj("list", items=["pdf", "png"])))))
+    res = I.run_function(F_OPEN, [cfg], st=st)
+    return [(v, [t[1] for t in s.trace if t[0] == "out"], list(s.imprecise), isinstance(v, Raised)) for v, s in res]
+
+
+def open_scenarios(run: Run, model: PyModel) -> None:
+    """Abstract runs of run_action_open over virtual pages (nothing is opened, queried or printed: messages and external actions are recorded).
+    The targets offered are, in line order, every page / local / global / reference / named-URL link, cite key and non-primary ZID on the line, however they are
+    wrapped in punctuation and whether or not they repeat; one target opens directly; option k (or -1) opens exactly what a line holding only the k-th target
+    opens; an option beyond the list opens nothing and fails; the primary ZID of an item is not a target (in a .zoq page every ZID is); a query line of a .zoq page
+    refreshes it; an ID owned by several notes of ONE page opens that page, by notes of several pages is refused; everything printed is a protocol message."""
+    fo = model.func(F_OPEN)
+    n = 0
+
+    def go(label, page, lines, ln, opt):
+        nonlocal n
+        try:
+            res = _open_run(model, page, lines, ln, opt)
+        except Exception as e:  # noqa: BLE001
+            run.undecided("C17.R3", "run_action_open", f"{label}: cannot interpret: {type(e).__name__}: {str(e)[:100]}")
+            return None
+        if len(res) != 1:
+            run.undecided("C17.R3", "run_action_open", f"{label}: {len(res)} abstract outcomes on a concrete scenario")
+            return None
+        v, outs, imprecise, raised = res[0]
+        n += 1
+        if raised or imprecise:
+            run.undecided("C17.R3", "run_action_open", f"{label}: " + (f"raises {v.exc}" if raised else "; ".join(imprecise[:2])))
+            return None
+        bad = [o for o in outs if not o.startswith(PROTOCOL + ("PROC ", "REFRESH ", "INIT "))]
+        run.check("C17.R1", f"{label}: everything printed is a protocol message", not bad, "run_action_open", f"{label}: printed {bad[:2]}",
+                  f"{label}: `action open` prints {bad[:2]}, which is not an EDIT/SEARCH/PROMPT/ECHO message: the editor plugin misreads it", file=FILE, node=fo.node)
+        return v, outs
+
+    targets = ["[[q]]", "[[r#anch]]", "[^lid]", "[#gid]", "[@rid]", "[!url]", "z::cite", "240101#B2", "[[doc.pdf]]", "[[q]]", "240101#C3x", "[[new/page]]"]
+    multi = "o P1 240102 240101#A1 see [[q]], ([[r#anch]]) [^lid]; [#gid]: [@rid]. [!url]? z::cite, (240101#B2) [[doc.pdf]]! and [[q]] again; 240101#C3x or [[new/page]]."
+    page = ["# Page", "", multi, ""]
+    r = go("a line with twelve targets, no option", "p.zo", page, 3, None)
+    if r is not None:
+        v, outs = r
+        run.check("C17.R3", "several targets are offered through PROMPT, in line order, repeats included", outs == ["PROMPT " + " ".join(targets)] and v == 0, "run_action_open", f"PROMPT: {outs}"[:300],
+                  f"for the line `{multi}` the answer is {outs} (status {v!r}), expected one PROMPT listing {targets}: a target is missing, repeated targets are merged, the order changes "
+                  "or the primary ZID / punctuation leaks in, so option numbers no longer mean what the user sees", file=FILE, node=fo.node)
+    singles = {}
+    for k, t in enumerate(targets, 1):
+        r1 = go(f"a line holding only {t}", "p.zo", ["# Page", "", f"- 240101#A1 pad {t}", ""], 3, None)
+        if r1 is None:
+            continue
+        singles[k] = r1
+        rk = go(f"option {k} of the twelve-target line", "p.zo", page, 3, k)
+        if rk is not None:
+            run.check("C17.R3", f"option {k} opens what a line holding only the {k}-th target ({t}) opens", rk == r1 and bool(r1[1]), "run_action_open", f"option {k}: {rk} vs alone: {r1}"[:300],
+                      f"option {k} of `{multi}` answers {rk}, a line holding only {t} answers {r1}: the option opens a different target (or a target that is offered cannot be opened)", file=FILE, node=fo.node)
+    rl = go("option -1 of the twelve-target line", "p.zo", page, 3, -1)
+    if rl is not None and len(targets) in singles:
+        run.check("C17.R3", "option -1 opens the last target", rl == singles[len(targets)], "run_action_open", f"option -1: {rl}"[:200],
+                  f"option -1 answers {rl}, the last target alone answers {singles[len(targets)]}", file=FILE, node=fo.node)
+    rb = go("an option beyond the list", "p.zo", page, 3, len(targets) + 1)
+    if rb is not None:
+        run.check("C17.R3", "an option beyond the list opens nothing and fails", rb[0] == 1 and not rb[1], "run_action_open", f"option {len(targets) + 1}: {rb}"[:200],
+                  f"option {len(targets) + 1} of a {len(targets)}-target line answers {rb}, expected status 1 and no message", file=FILE, node=fo.node)
+    # absolute expectations for the kinds (where each resolves to)
+    want = {1: (0, ["EDIT /Z/q.zo"]), 2: (0, ["EDIT /Z/r.zo", "SEARCH LID::anch"]), 8: (0, ["EDIT /Z/pg/z.zo"]), 4: (0, ["EDIT /Z/pg/g.zo"]), 5: (0, ["EDIT /Z/pg/r.zo"]), 11: (0, ["EDIT /Z/pg/c.zo"]),
+            12: (0, ["INIT /Z/new/page.zo", "EDIT /Z/new/page.zo"])}
+    for k, (wv, wouts) in want.items():
+        if k in singles:
+            v, outs = singles[k]
+            ok = v == wv and outs[:len(wouts)] == wouts and (k not in (4, 5, 8, 11) or (len(outs) == 2 and outs[1].startswith("SEARCH ")))
+            run.check("C17.R2", f"{targets[k - 1]} resolves to {wouts}", ok, "run_action_open", f"{targets[k - 1]}: {outs}",
+                      f"a line holding only {targets[k - 1]} answers {outs} (status {v!r}), expected {wouts}" + (" followed by a SEARCH for it" if k in (4, 5, 8, 11) else ""), file=FILE, node=fo.node)
+    # primary ZID / .zoq pages / query lines
+    for label, pg, line, opt, wv, wouts in (
+            ("an item whose only ZID is its own", "p.zo", "o P1 240102 240101#A1 plain text.", None, 0, None),
+            ("a .zoq page: the first ZID of an item is a target", "zoq/q.zoq", "- 240101#A1 plain text", None, 0, ["EDIT /Z/pg/a.zo"]),
+            ("a query line of a .zoq page", "zoq/q.zoq", "# W +a [[q]]", None, 0, ["REFRESH /Z/zoq/q.zoq", "EDIT /Z/zoq/q.zoq"]),
+            ("a query line in a .zo page is an ordinary line", "p.zo", "# W +a [[q]]", None, 0, ["EDIT /Z/q.zo"]),
+            ("an ID owned by two notes of one page", "p.zo", "- 240101#A1 see [#twice]", None, 0, ["EDIT /Z/pg/t.zo"]),
+            ("an ID owned by notes of two pages", "p.zo", "- 240101#A1 see [#split]", None, 1, "ECHO"),
+            ("an ID nobody owns", "p.zo", "- 240101#A1 see [#nobody]", None, 1, "ECHO"),
+            ("a ZID nobody owns", "p.zo", "- 240101#A1 see 240101#ZZ", None, 1, [])):
+        r = go(label, pg, ["# Page", "", line, ""], 3, opt)
+        if r is None:
+            continue
+        v, outs = r
+        if wouts is None:
+            ok = v == wv and len(outs) == 1 and outs[0].startswith("ECHO ")
+            exp = "one ECHO (nothing to open)"
+        elif wouts == "ECHO":
+            ok = v == wv and len(outs) == 1 and outs[0].startswith("ECHO ")
+            exp = "one ECHO and status 1"
+        else:
+            ok = v == wv and outs[:len(wouts)] == wouts and all(o.startswith("SEARCH ") for o in outs[len(wouts):])
+            exp = f"{wouts} (status {wv})"
+        rid = "C17.R4" if "owned by" in label else "C17.R3"
+        run.check(rid, f"{label}: {exp}", ok, "run_action_open", f"{label}: {outs} status {v!r}", f"{label} (`{line}`): the answer is {outs} with status {v!r}, expected {exp}", file=FILE, node=fo.node)
+    run.floor("action-open scenarios", n, 30)
+
+
 def check(run: Run) -> None:
     model = PyModel(run.repo)
     eff = Effects(model)
     run.rule("C17.R1", "stdout is protocol-only: every stdout effect reachable from run_action_open prints a string whose first piece is a constant starting with EDIT/SEARCH/PROMPT/ECHO")
-    run.rule("C17.R2", "marker tables: the link markers recognised by the word scan equal those dispatched by _open_link; stripped punctuation is disjoint from kind prefixes and brackets")
-    run.rule("C17.R3", "option arithmetic: one target opens directly, option k selects element k-1, -1 the last, no option prompts with the targets in scan order")
-    run.rule("C17.R4", "ID links: 'several pages' is decided on distinct pages")
+    run.rule("C17.R2", "every kind of target that is offered can be opened and resolves to its page (abstract runs of run_action_open on lines holding one target of each kind); stripped punctuation is disjoint from kind prefixes and brackets")
+    run.rule("C17.R3", "option arithmetic, by abstract runs of run_action_open over a virtual page: a twelve-target line (every kind, wrapped in punctuation, one repeated) prompts with the targets in line order; option k / -1 answers exactly what a line holding only that target answers; beyond the list fails; primary ZID, .zoq pages and query lines")
+    run.rule("C17.R4", "ID links: an ID owned by several notes of one page opens that page, by notes of several pages is refused (scenarios)")
     run.rule("C17.R5", "ZID targets: every ZID the allocator can issue (YYMMDD#A^2, YYMMDD#A^3) is in the language is_zid accepts, so a word carrying one is offered as a target")
     from .c07 import is_zid_accepts_allocated
 
@@ -54,13 +236,12 @@ def check(run: Run) -> None:
     run.floor("stdout effects in the action-open slice", n_out, 10)
     run.sample(dict(rule="C17.R1", slice_functions=len(slice_), stdout_sites=n_out))
 
-    # ---- R2
-    # The operation is analysed with its private helpers folded back in: the word scan = run_action_open without the
-    # dispatcher; the dispatcher = _open_link with its predicates (but not the openers it hands over to).
+    # ---- R2 / R3 / R4: scenarios through run_action_open
+    open_scenarios(run, model)
+    # stripped punctuation keeps kind prefixes and brackets intact (the word scan with its helpers folded in)
     from ..flatten import flat_info
 
     fo = flat_info(model, F_OPEN, exclude=(F_DISPATCH,))
-    fd = flat_info(model, F_DISPATCH, expr_only=True)
     consts = {k: v.value for k, v in fo.module.assigns.items() if isinstance(v, ast.Constant) and isinstance(v.value, str)}
 
     def lit(e: ast.expr):
@@ -70,30 +251,6 @@ def check(run: Run) -> None:
             return consts[e.id]
         return None
 
-    def markers(fn: ast.FunctionDef, methods: tuple[str, ...]) -> set[str]:
-        """Constant link markers a word is tested against: w.find(m) / w.startswith(m) / m in w."""
-        out = set()
-        cands = []
-        for c in ast.walk(fn):
-            if isinstance(c, ast.Call) and isinstance(c.func, ast.Attribute) and c.func.attr in methods and c.args:
-                a0 = c.args[0]
-                cands.extend(a0.elts if isinstance(a0, ast.Tuple) else [a0])
-            elif isinstance(c, ast.Compare) and len(c.ops) == 1 and isinstance(c.ops[0], (ast.In, ast.NotIn)):
-                cands.append(c.left)
-        for a in cands:
-            v = lit(a)
-            if v is not None and v not in ("]", "]]") and len(v) >= 2:
-                out.add(v)
-        return out
-
-    scan = markers(fo.node, ("find", "startswith"))
-    scan = {m for m in scan if not m.startswith("# ") and not m.startswith(".")}  # "# S " / "# W " / ".zoq" are the query-line test, not link markers
-    disp = markers(fd.node, ("startswith", "find"))
-    run.check("C17.R2", "scan markers == dispatch markers", scan == disp, "run_action_open/_open_link", f"scan {sorted(scan)} vs dispatch {sorted(disp)}",
-              f"the word scan recognises {sorted(scan)} but _open_link dispatches {sorted(disp)}: a target that is offered cannot be opened (or falls through to the ZID branch)",
-              file=FILE, node=fd.node)
-    run.floor("link markers", len(scan), 6)
-    # stripped punctuation
     kind_chars = set()
     tmod = model.module_of("zorg.domain.types")
     for nm in ("DoneTodoTypeChar", "TodoTypeChar", "NoteTypeChar"):
@@ -104,106 +261,11 @@ def check(run: Run) -> None:
                     kind_chars.add(c.value)
     run.floor("kind prefix characters", len(kind_chars), 6)
     strips = [c for c in ast.walk(fo.node) if isinstance(c, ast.Call) and isinstance(c.func, ast.Attribute) and c.func.attr == "strip" and c.args and lit(c.args[0])]
-    word_strips = [c for c in strips if len(lit(c.args[0])) > 2]
-    run.floor("word punctuation strip in the scan", len(word_strips), 1)
-    for c in word_strips:
+    for c in [c for c in strips if len(lit(c.args[0])) > 2]:
         chars = set(lit(c.args[0]))
         clash = sorted(chars & (kind_chars | {"[", "]"}))
         run.check("C17.R2", "stripped punctuation keeps kind prefixes and brackets intact", not clash, "run_action_open", c,
                   f"the scan strips {clash} from words: a kind prefix becomes '' and is no longer recognised by the primary-ZID rule (the primary ZID is then offered as a target)",
                   file=FILE, node=c)
-    run.sample(dict(rule="C17.R2", scan=sorted(scan), dispatch=sorted(disp), kind_chars=sorted(kind_chars)))
-
-    # ---- R3
-    fn = fo.node
-    targets_var = None
-    for n in walk_no_nested(fn):
-        if isinstance(n, ast.Call) and isinstance(n.func, ast.Name) and n.func.id == "print":
-            for sh in ShapeEval(model, fo).eval(n.args[0]):
-                if sh and isinstance(sh[0], Const) and sh[0].text.startswith("PROMPT ") and len(sh) > 1:
-                    src = getattr(sh[1], "source", "")
-                    targets_var = src.split(".")[0] if src else None
-                    joined = any(t.startswith("joined(' ')") for t in getattr(sh[1], "transforms", ()))
-                    run.check("C17.R3", "PROMPT lists the targets separated by one space", joined, "run_action_open", n,
-                              "the PROMPT message is not the space-joined target list", file=FILE, node=n)
-    aliases = {targets_var} if targets_var else set()
-    for _ in range(4):  # follow `targets = helper_result` aliases introduced by folding a helper back in
-        srcs = [a.value for a in walk_no_nested(fn) if isinstance(a, ast.Assign) and any(isinstance(t, ast.Name) and t.id == targets_var for t in a.targets)]
-        if targets_var and len(srcs) == 1 and isinstance(srcs[0], ast.Name) and not mutated_names(fn).get(targets_var):
-            targets_var = srcs[0].id
-            aliases.add(targets_var)
-        else:
-            break
-    if targets_var is None:
-        run.undecided("C17.R3", "run_action_open", "cannot find the PROMPT message / target list")
-    else:
-        # scan-order accumulation
-        mut = [m for m in mutated_names(fn).get(targets_var, [])]
-        ops = {m.func.attr for m in mut if isinstance(m, ast.Call)}
-        only_append = ops <= {"append"} and all(isinstance(m, ast.Call) for m in mut)
-        resorted = any(isinstance(n, ast.Call) and ast.unparse(n.func) in ("sorted", "set", "reversed") and targets_var in ast.unparse(n) for n in walk_no_nested(fn))
-        run.check("C17.R3", "targets are collected in line order", only_append and not resorted, "run_action_open", f"operations on {targets_var}: {sorted(ops)}",
-                  f"`{targets_var}` is not a plain in-order accumulation (operations {sorted(ops)}{', re-sorted' if resorted else ''})", file=FILE, node=fn)
-        scan_loops = [n for n in walk_no_nested(fn) if isinstance(n, ast.For) and targets_var in mutated_names(n)]
-        if len(scan_loops) == 1:
-            src = ast.unparse(scan_loops[0].iter)
-            for _ in range(3):  # look through `words = line.split(); for w in enumerate(words)`
-                for nm in {n.id for n in ast.walk(ast.parse(src, mode="eval")) if isinstance(n, ast.Name)}:
-                    defs_ = [a.value for a in walk_no_nested(fn) if isinstance(a, ast.Assign) and len(a.targets) == 1 and isinstance(a.targets[0], ast.Name) and a.targets[0].id == nm]
-                    if len(defs_) == 1:
-                        src = src.replace(nm, f"({ast.unparse(defs_[0])})")
-            run.check("C17.R3", "the scan walks the words of the line left to right", ".split(" in src and "sorted" not in src and "reversed" not in src, "run_action_open",
-                      scan_loops[0].iter, f"the scan iterates `{src[:70]}`", file=FILE, node=scan_loops[0])
-        # selection
-        sel_ok = {"single": False, "last": False, "kth": False}
-        for n in walk_no_nested(fn):
-            if isinstance(n, ast.If):
-                t = ast.unparse(n.test)
-                if any(f"len({al}) == 1" in t for al in aliases):
-                    sel_ok["single"] = any(isinstance(s, ast.Subscript) and base_name(s.value) in (aliases | {"list"}) and int_eval(s.slice, {}) == 0 for b in n.body for s in ast.walk(b))
-                if "option_idx == -1" in t:
-                    sel_ok["last"] = any(isinstance(s, ast.Subscript) and base_name(s.value) in aliases and int_eval(s.slice, {}) == -1 for b in n.body for s in ast.walk(b))
-        for n in walk_no_nested(fn):
-            if isinstance(n, ast.For) and isinstance(n.iter, ast.Call) and ast.unparse(n.iter.func) == "enumerate" and n.iter.args and ast.unparse(n.iter.args[0]) in aliases:
-                start = 0
-                if len(n.iter.args) > 1:
-                    start = int_eval(n.iter.args[1], {}) or 0
-                for k in n.iter.keywords:
-                    if k.arg == "start":
-                        start = int_eval(k.value, {}) or 0
-                ivar = n.target.elts[0].id if isinstance(n.target, ast.Tuple) else None
-                for c in ast.walk(n):
-                    if isinstance(c, ast.Compare) and "option_idx" in ast.unparse(c) and ivar and isinstance(c.ops[0], ast.Eq):
-                        side = c.left if ivar in ast.unparse(c.left) else c.comparators[0]
-                        # side == option  with side = i + d  -> element index = option - d - start... evaluate at i=0
-                        v0 = int_eval(side, {ivar: start})
-                        if v0 is not None:
-                            sel_ok["kth"] = v0 == 1  # the first element (i = start) is chosen by option 1
-            if isinstance(n, ast.Subscript) and base_name(n.value) in aliases and "option_idx" in ast.unparse(n.slice):
-                v = int_eval(n.slice, {"option_idx": 1}) if isinstance(n.slice, ast.BinOp) else None
-                if isinstance(n.slice, ast.BinOp):
-                    txt = ast.unparse(n.slice).replace("cfg.option_idx", "K")
-                    try:
-                        sel_ok["kth"] = eval(txt, {"__builtins__": {}}, {"K": 1}) == 0  # arithmetic on a literal index expression only
-                    except Exception:
-                        pass
-        for k, label in (("single", "a single target opens directly (element 0)"), ("last", "option -1 opens the last target"), ("kth", "option k opens target k (1-based)")):
-            run.check("C17.R3", label, sel_ok[k], "run_action_open", f"selection rule: {k}", f"selection rule violated or not recognised: {label}", file=FILE, node=fn)
-
-    # ---- R4
-    fg = model.func(F_GLOBAL)
-    n_r4 = 0
-    for n in walk_no_nested(fg.node):
-        if isinstance(n, ast.If) and isinstance(n.test, ast.Compare) and isinstance(n.test.left, ast.Call) and ast.unparse(n.test.left.func) == "len" and isinstance(n.test.ops[0], ast.Gt):
-            var = base_name(n.test.left.args[0])
-            srcs = [a.value for a in walk_no_nested(fg.node) if isinstance(a, ast.Assign) and any(isinstance(t, ast.Name) and t.id == var for t in a.targets)]
-            if not any(isinstance(x, ast.Return) for x in ast.walk(n)):
-                continue  # not the refusal branch
-            n_r4 += 1
-            distinct = bool(srcs) and all(any(isinstance(x, (ast.SetComp, ast.Set)) or (isinstance(x, ast.Call) and ast.unparse(x.func) in ("set", "dict.fromkeys", "frozenset")) for x in ast.walk(s)) for s in srcs)
-            run.check("C17.R4", "the 'multiple pages' test counts distinct pages", distinct, "_open_global_link", n.test,
-                      f"`{var}` is not de-duplicated before `len({var}) > 1`: an ID owned by several notes of ONE page is reported as 'multiple pages' instead of being opened",
-                      file=FILE, node=n)
-    run.floor("'several pages' refusals in _open_global_link", n_r4, 1)
     run.units = dict(slice_size=len(slice_), functions=[F_OPEN, F_DISPATCH, F_LOCAL, F_GLOBAL])
     run.assumptions += ["output of child processes (open, papis) is not zorg's stdout discipline", "logging goes to stderr (logrus default)"]
